@@ -10,6 +10,7 @@ from engine.model import src, stmt_key, walk_no_nested, dotted, AnalysisError
 from engine.util import own_nodes, calls_with_nodes, where
 
 RULES = {
+    "R-10.15": "stored data is replaced, never edited: in dns.transaction.Transaction a value read from the store (self._get_rdataset / self._get_node) is not the receiver of a mutating call or an augmented assignment - a plain zone's writable version shares rdataset objects with the committed zone, so an in-place edit survives a rollback (the copying forms difference()/union()/intersection() build new sets)",
     "R-10.14": "names outside the zone are refused whatever the relativity setting: in dns.zone._validate_name the `not name.is_subdomain(origin)` refusal of an absolute name is not nested under a test of `relativize`",
     "R-10.13": "copy-on-write copies from the OLD node: in every `fresh.rdatasets.extend(old.rdatasets)` of a version class the source is not (an alias of) the fresh node itself - otherwise every untouched name below a new or removed delegation loses its records",
     "R-10.12": "delete_exact refuses unless EVERY given rdata is present: the DeleteNotExact('missing rdatas') raise is guarded by a subset test (`existing.intersection(rdataset) != rdataset` / `not rdataset.issubset(existing)`), not by disjointness",
@@ -379,6 +380,51 @@ def run(model, rep, tier):
     rep.share(model, "C19", {"R-19.1"}, "R-10.7", "the B-tree zone's writable version is a copy-on-write clone of the published node map")
     rep.share(model, "C09", {"R-09.3"}, "R-10.8", "every put of a transaction ends in Node.replace_rdataset/_append_rdataset", only=lambda o: o.stmt in ("node-filter", "node-filter-tables", "classify"))
     rep.share(model, "C07", {"R-07.7"}, "R-10.10", "Transaction._add merges with existing.union(rdataset), i.e. Set.union_update; singleton types are kept single only by Rdataset.add")
+    # ---------------------------------------------------------------- R-10.15
+    SET_EDITS = {"add", "remove", "discard", "pop", "clear", "update", "union_update", "intersection_update", "difference_update", "symmetric_difference_update", "update_ttl",
+                 "replace_rdataset", "delete_rdataset", "_append_rdataset", "append", "extend", "insert", "sort", "reverse"}
+    n15 = 0
+    from engine.dataflow import ReachingDefs as _RD15
+    for f15 in sorted(model.cls("dns.transaction.Transaction").methods.values(), key=lambda g: g.qualname):
+        if not any(isinstance(x, ast.Call) and src(x.func) in ("self._get_rdataset", "self._get_node") for x in ast.walk(f15.node)):
+            continue
+        cfg15 = CFG(f15.node, implicit_exc=False)
+        rd15 = _RD15(cfg15, f15.params())
+
+        def stored_at(name, node, depth=0):
+            """may `name` hold an object read from the store when control is at `node`?"""
+            if depth > 4:
+                return False
+            for d in rd15.reaching(name, node):
+                if d.rhs is None:
+                    continue
+                if isinstance(d.rhs, ast.Call) and src(d.rhs.func) in ("self._get_rdataset", "self._get_node"):
+                    return True
+                if isinstance(d.rhs, ast.Name) and d.node is not None and stored_at(d.rhs.id, d.node, depth + 1):
+                    return True
+            return False
+
+        bad15 = []
+        for nd15 in cfg15.stmts():
+            for x in own_nodes(nd15.ast):
+                recv = None
+                if isinstance(x, ast.Call) and isinstance(x.func, ast.Attribute) and x.func.attr in SET_EDITS and isinstance(x.func.value, ast.Name):
+                    recv, what15 = x.func.value.id, "in-place " + x.func.attr
+                elif isinstance(x, ast.AugAssign) and isinstance(x.target, ast.Name):
+                    recv, what15 = x.target.id, "in-place AugAssign"
+                elif isinstance(x, (ast.Assign, ast.AugAssign, ast.Delete)):
+                    for t_ in (x.targets if isinstance(x, (ast.Assign, ast.Delete)) else [x.target]):
+                        if isinstance(t_, (ast.Attribute, ast.Subscript)) and isinstance(t_.value, ast.Name):
+                            recv, what15 = t_.value.id, "in-place store"
+                if recv is not None and stored_at(recv, nd15):
+                    bad15.append((x, what15))
+        n15 += sum(1 for x in ast.walk(f15.node) if isinstance(x, ast.Call) and src(x.func) in ("self._get_rdataset", "self._get_node"))
+        for (x, what15) in bad15:
+            rep.bad("R-10.15", f15.qualname, where(f15, x), f"`{src(x)[:60]}` edits in place an object read from the store: the writable version of a plain zone shares its rdatasets with the committed zone, so the edit is "
+                    "visible before commit and is not undone by a rollback (a failed IXFR leaves its deletions behind)", stmt=what15)
+        if not bad15:
+            rep.ok("R-10.15", f15.qualname, where(f15, f15.node), "objects read from the store are only read or copied", stmt="stored-not-edited")
+    rep.floor("R-10.15", n15, 4)
     from rules.common import optional_results_by_identity, key_triple_forwarded
     optional_results_by_identity(model, rep, "R-10.9", {"dns.transaction"}, "the caller gave no rdataset/rdata arguments",
                                  "delete(name, <empty rdataset>) falls into the delete-the-whole-name arm and removes every rdataset at the name", 1)
@@ -620,6 +666,14 @@ def _for_node_kinds(model, f, cfg, rd, d) -> set:
 
 
 WITNESSES = [
+    {"id": "c10-twin-delete-rebinds-then-edits", "rule": "R-10.15", "file": "dns/transaction.py", "expect": "silent",
+     "old": "                    rdataset = existing.difference(rdataset)", "new": "                    existing = existing.copy()\n                    existing.difference_update(rdataset)\n                    rdataset = existing"},
+    {"id": "c10-delete-edits-stored-rdataset", "rule": "R-10.15", "file": "dns/transaction.py", "expect": "fires",
+     "old": "                    rdataset = existing.difference(rdataset)", "new": "                    existing.difference_update(rdataset)\n                    rdataset = existing"},
+    {"id": "c10-add-edits-stored-rdataset", "rule": "R-10.15", "file": "dns/transaction.py", "expect": "fires",
+     "old": "                    rdataset = existing.union(rdataset)", "new": "                    existing |= rdataset\n                    rdataset = existing"},
+    {"id": "c10-twin-delete-copy-then-edit", "rule": "R-10.15", "file": "dns/transaction.py", "expect": "silent",
+     "old": "                    rdataset = existing.difference(rdataset)", "new": "                    remaining = existing.copy()\n                    remaining.difference_update(rdataset)\n                    rdataset = remaining"},
     {"id": "c10-out-of-zone-check-only-when-relativizing", "rule": "R-10.14", "file": "dns/zone.py", "expect": "fires",
      "old": "        if not name.is_subdomain(origin):\n            raise KeyError(\"name parameter must be a subdomain of the zone origin\")\n        if relativize:\n            name = name.relativize(origin)",
      "new": "        if relativize:\n            if not name.is_subdomain(origin):\n                raise KeyError(\"name parameter must be a subdomain of the zone origin\")\n            name = name.relativize(origin)"},
